@@ -212,10 +212,11 @@ reg(C01("C01"))
 
 
 class C02(TreeCheck):
-    obligations = [("main", "L2BndS", "parseBlocks_bounds"), ("main", "C01a", "C01_ordered"), ("main", "NoPanicAll", "parseBlocks_no_panic")]
+    obligations = [("main", "L2BndS", "parseBlocks_bounds"), ("main", "C01a", "C01_ordered"), ("main", "NoPanicAll", "parseBlocks_no_panic"),
+                   ("main", "BlockSpans", "parseBlocks_block_spans"), ("main", "BlockSpans", "parseFull_block_spans")]
     proj = staticmethod(proj_spans)
     what = "span structure"
-    assumptions = ["partial: proved are the bounds of block ends and inline entries by the line read so far (every input); nesting, sibling order and character boundaries are decided by the correspondence plus the span oracle on sampled inputs"]
+    assumptions = ["partial: proved for every input: every block span is valid, lies inside its parent and consecutive block children are ordered and disjoint, root starts are non-negative (parseFull_block_spans), and the ends of blocks and inline entries are bounded by the line read so far; the inline-level clauses (spans of inline nodes after emphasis / link surgery) and the character-boundary clause are decided by the correspondence, the span oracle and the formal statement evaluated on the implementation's trees"]
 
 
 reg(C02("C02"))
@@ -411,8 +412,10 @@ def filter_fam_corr(cases):
 class C17(Check):
     rule = "raw-HTML stressors (comments, CDATA, declarations, processing instructions, stray '<', case mixes, raw-text element names) as token soup, plus the general document stream; predicates GFM, reject-all, reject-none and two name sets containing the raw-text elements"
     obligations = [("filter", "Filter", "filter_relaxed"), ("filter", "Filter", "filter_none_id"), ("filter", "Filter", "filter_lt_ok"), ("filter", "TokProof", "start_tag_origin"),
-                   ("filter", "TokProof", "no_rejected_start"), ("filter", "TokProof", "prefix_closed_names"), ("main", "C17doc", "C17_only_lt_escaped")]
-    assumptions = ["first clause proved for whole documents on the renderer model (C17_only_lt_escaped); second clause proved for filterRaw output against a WHATWG data-state tokenizer fragment (no_rejected_start) for prefix-closed predicates; the oracle uses golang.org/x/net/html's tokenizer on the implementation's output"]
+                   ("filter", "TokProof", "no_rejected_start"), ("filter", "TokProof", "prefix_closed_names"), ("main", "C17doc", "C17_only_lt_escaped"),
+                   ("main", "C17tags", "C17_no_rejected_start_doc_partial"), ("main", "C17tags", "C17_no_rejected_start_renderDoc_partial"),
+                   ("main", "C17tags", "C17_no_rejected_start_doc_statement_false"), ("main", "C17exact", "chkB_exact"), ("main", "C17exact", "chkB_setP")]
+    assumptions = ["first clause proved for whole documents on the renderer model (C17_only_lt_escaped); second clause proved for whole documents (C17_no_rejected_start_doc_partial: the tokenizer fragment sees no rejected start tag in the renderer's whole output) for prefix-closed predicates under the boolean side condition chkB on the tree (raw-HTML and verbatim leaves do not end inside a tag name that the following output continues); the side condition is exact (chkB_exact), independent of the predicate (chkB_setP), is evaluated on the implementation's own tree in every run, and without it the statement is false for arbitrary trees (C17_no_rejected_start_doc_statement_false: two adjacent raw nodes '<scr' 'ipt>'); that every parser output satisfies it is not proved; second clause also proved for filterRaw output on one fragment (no_rejected_start); the oracle uses golang.org/x/net/html's tokenizer on the implementation's output"]
 
     def jobs(self, seed, tier):
         ds = raw_docs(seed, size(tier, 2500, 100000)) + docs(seed, tier, quick=1000, thorough=30000)
@@ -421,7 +424,13 @@ class C17(Check):
         preds = ["gfm", "all", "none", "set1", "set2"]
         fcases = [(d, preds[i % 5]) for i, d in enumerate(frag)]
         jcases = [(d, "") for d in ds]
+        def side(cases):
+            ls = lines_of([(c, "") for c, _ in cases])
+            a = run.harness("full", ls)
+            b = run.model("chk17", [strip_refs(x) + "\t" + str(i % 3) for i, x in enumerate(a)])
+            return [(i, a[i][:800], b[i], "side condition chkRoots of C17_no_rejected_start_doc_partial fails on the implementation's tree") for i in range(len(a)) if b[i] != "1"]
         return [Job("tree -> filtered HTML", cases, corr=tree_render_corr("html")),
+                Job("side condition of the whole-document theorem on the implementation's trees", cases, corr=side),
                 Job("filterRaw on fragments", fcases, corr=two_sided("filterraw", "filterraw", ident, "filterRaw output")),
                 Job("filterRaw on fragments (model of coq/filter)", fcases, corr=filter_fam_corr),
                 Job("documents x predicates", jcases, judge_mode="judge:C17")]
